@@ -167,8 +167,11 @@ def run(tier):
         ndates += 1
     for y in (1, 1601, 1979, 2108, 2500, 9999):
         for (m, dd) in ((1, 1), (12, 31), (6, 15)):
-            w = DosDateTime(y, m, dd).serialize_date()
-            ask("date_enc %d %d %d" % (y, m, dd), "ok %d" % w, "dout%d" % y, "enc1")
+            try:
+                impl = "ok %d" % DosDateTime(y, m, dd).serialize_date()
+            except ValueError:
+                impl = "err ValueError"      # out of the DOS range: rejected before anything is stored
+            ask("date_enc %d %d %d" % (y, m, dd), impl, "dout%d" % y, "enc1")
     res.count("dates", ndates)
 
     # ---- 4: all times of day --------------------------------------------------
